@@ -832,10 +832,38 @@ package bkl
 
 // ------------------------------------------------------------------------------------------------- parser.go (stream layering, C02)
 
-//@ func Parser.parents(p, patch) (res) trusted
-//@   ensures (= res (parentsOf (heap Parser.docs) (heap Document.ID) (heap Document.Parents) p patch))
+//@ func Parser.parents(p, patch) (res)
+//@   property C02
+//@   uses filterAncDistinct, filterAncSub, rappNil, rsnocApp
+//@   requires (rdistinct (Parser.docs p))
+//@   requires (forall ((r Int)) (=> (rmem r (Parser.docs p)) (not (= r 0))))
+//@   ensures (= res (parentsOf (heap Parser.docs) (heap Document.ID) (heap Document.Parents) p patch))       [C02]
 //@   ensures (rdistinct res)
 //@   ensures (forall ((r Int)) (=> (rmem r res) (and (rmem r (Parser.docs p)) (not (= r 0)))))
+//@   loop 1
+//@     invariant (= (rapp ret (filterAnc (heap Document.ID) (ancIDs (heap Document.Parents) (heap Document.ID) patch) rest))
+//@                  (filterAnc (heap Document.ID) (ancIDs (heap Document.Parents) (heap Document.ID) patch) (Parser.docs p)))
+//
+//@ func Document.AllParents(d) (res)
+//@   property C02
+//@   ensures (forall ((id String)) (= (not (= (select res id) 0)) (select (ancIDs (heap Document.Parents) (heap Document.ID) d) id)))    [C02]
+//@   ensures (forall ((id String)) (=> (not (= (select res id) 0)) (= (Document.ID (select res id)) id)))
+//
+//@ func Document.allParents(d, parents) ()
+//@   property C02
+//@   uses ancViaApp
+//@   mutates parents
+//@   requires (forall ((id String)) (=> (not (= (select parents id) 0)) (= (Document.ID (select parents id)) id)))
+//@   ensures (forall ((id String)) (= (not (= (select parents@post id) 0))                                                                [C02]
+//@              (or (not (= (select parents id) 0)) (select (ancIDs (heap Document.Parents) (heap Document.ID) d) id))))
+//@   ensures (forall ((id String)) (=> (not (= (select parents@post id) 0)) (= (Document.ID (select parents@post id)) id)))
+//@   loop 1
+//@     invariant (forall ((id String)) (= (not (= (select parents id) 0))
+//@                  (or (not (= (select parents@pre id) 0)) (ancVia (heap Document.Parents) (heap Document.ID) done id))))
+//@     invariant (forall ((id String)) (=> (not (= (select parents id) 0)) (= (Document.ID (select parents id)) id)))
+//@   loop 2
+//@     invariant (forall ((id String)) (= (select parents id)
+//@                  (ite (select visited id) (select parent_AllParents id) (select parents@loop id))))
 //
 //@ func Document.DataAsMap(d) (res)
 //@   ensures (= res (ite ((_ is VMap) (Document.Data d)) (Document.Data d) VNil))
